@@ -147,9 +147,16 @@ where
     ```
     */
     pub fn new(target: D, proposal: Q, initial_states: Vec<Vec<S>>) -> Self {
+        // A plain clone of `proposal` would replay the same proposal noise in every chain:
+        // give each chain's copy its own stream.
+        let base: u64 = rand::rng().next_u64();
         let chains = initial_states
             .into_iter()
-            .map(|s| MHMarkovChain::new(target.clone(), proposal.clone(), s))
+            .enumerate()
+            .map(|(i, s)| {
+                let chain_proposal = proposal.clone().set_seed(base.wrapping_add(i as u64));
+                MHMarkovChain::new(target.clone(), chain_proposal, s)
+            })
             .collect();
         Self {
             target,
@@ -187,7 +194,13 @@ where
     pub fn seed(mut self, seed: u64) -> Self {
         for (i, chain) in self.chains.iter_mut().enumerate() {
             let chain_seed = seed.wrapping_add(1).wrapping_add(i as u64);
-            chain.rng = SmallRng::seed_from_u64(chain_seed)
+            chain.rng = SmallRng::seed_from_u64(chain_seed);
+            // Re-seed the chain's proposal as well, on a stream that differs from the
+            // acceptance stream of the same chain and from every other chain's proposal stream.
+            chain.proposal = chain
+                .proposal
+                .clone()
+                .set_seed(chain_seed ^ 0x9E37_79B9_7F4A_7C15);
         }
         self
     }
